@@ -64,6 +64,10 @@ def decide(pid, tier, seed, args, ev):
     ctx = core.prepare(seed)
     cov['tree_hash'] = ctx.tree_hash
     cov['translator_validation'] = ctx.table_validation
+    import re as _re
+    _m = _re.search(r'checked=(\d+)', ctx.table_validation or '')
+    # strings pushed through both the real constructors and the extracted table twins on this run
+    cov['traces_validated_against_impl'] = int(_m.group(1)) if _m else 0
     known = [k for k in load_known() if k['property'] == pid or pid in k.get('also', [])]
     open_known = [k for k in known if k.get('status') == 'open']
     violations = []
@@ -97,33 +101,66 @@ def decide(pid, tier, seed, args, ev):
             cov['states'] = dres['states']
             cov['transitions'] = dres['transitions']
     # ---- Engine K
-    hs = [h for h in core.scan_harnesses() if pid in h['props'] and (tier == 'thorough' or h['tier'] == 'quick')]
+    hs = [h for h in core.scan_harnesses() if pid in h['props'] and (tier == 'thorough' or h.get('prop_tier', {}).get(pid, h['tier']) == 'quick')]
     if args.only:
+        # debugging / seed runs: named harnesses of this property, whatever their tier
         only = args.only.split(',')
-        hs = [h for h in hs if h['name'] in only or h['name'].split('::')[1] in only]
+        hs = [h for h in core.scan_harnesses() if pid in h['props'] and (h['name'] in only or h['name'].split('::')[1] in only)]
+        if not hs:
+            raise Inconclusive('--only matched no harness of ' + pid)
     results = []
     if hs:
         log('running %d harness(es) for %s/%s with %d jobs' % (len(hs), pid, tier, args.jobs))
-        hs.sort(key=lambda h: -h['timeout'])
-        with cf.ThreadPoolExecutor(max_workers=args.jobs) as ex:
-            futs = {ex.submit(core.run_kani, ctx, h, tuple(active_cfg)): h for h in hs}
-            for f in cf.as_completed(futs):
-                r = f.result()
-                log('  %-40s %-8s %6.1fs checks=%s covers=%s/%s' % (r['harness'], r['status'], r['wall_s'], r.get('checks_total'), r.get('covers_sat'), r.get('covers_total')))
+        # memory-aware scheduling: CBMC instances are memory-bound (2-25 GB each);
+        # run as many as fit in the budget, biggest first
+        import threading
+        budget = int(os.environ.get('VERIF_MEM_GB', '52'))
+        hs.sort(key=lambda h: (-h['mem'], -h['timeout']))
+        pending = list(hs)
+        cond = threading.Condition()
+        state = dict(used=0, running=0)
+
+        def worker(h):
+            try:
+                r = core.run_kani(ctx, h, tuple(active_cfg))
+            except Exception as e:  # never lose a harness silently
+                r = dict(harness=h['name'], kind=h['kind'], status='error', detail=repr(e), wall_s=0, bound=h.get('bound'), encodes=h.get('encodes'))
+            with cond:
+                state['used'] -= h['mem']
+                state['running'] -= 1
                 results.append(r)
+                log('  %-40s %-8s %6.1fs checks=%s covers=%s/%s' % (r['harness'], r['status'], r['wall_s'], r.get('checks_total'), r.get('covers_sat'), r.get('covers_total')))
+                cond.notify_all()
+        threads = []
+        with cond:
+            while pending:
+                started = False
+                for h in list(pending):
+                    if state['running'] < args.jobs and (state['used'] + h['mem'] <= budget or state['running'] == 0):
+                        pending.remove(h)
+                        state['used'] += h['mem']
+                        state['running'] += 1
+                        t = threading.Thread(target=worker, args=(h,))
+                        t.start()
+                        threads.append(t)
+                        started = True
+                if pending and not started:
+                    cond.wait()
+        for t in threads:
+            t.join()
     results.sort(key=lambda r: r['harness'])
     obligations = 0
     discharged = 0
     nontrivial = 0
+    not_completed = []
     for r in results:
         st = r['status']
         if r['kind'] == 'witness':
             # must fail, and only on the WITNESS assertion
             fc = r.get('failed_checks', [])
-            if st == 'failed' and fc and all('WITNESS' in c['description'] for c in fc):
+            if st == 'failed' and fc and all(r.get('expect', 'WITNESS') in c['description'] for c in fc):
                 for pb in r.get('playback', [])[:1]:
                     cov['samples'].append(dict(harness=r['harness'], what='reachability witness (solver-produced input)', values_hex=pb['hex'], values=pb.get('shown')))
-                cov['traces_validated_against_impl'] = cov.get('traces_validated_against_impl', 0)
             elif st == 'success':
                 inconclusive.append('vacuity: witness harness %s is unreachable (assumptions unsatisfiable?)' % r['harness'])
             elif st == 'failed':
@@ -145,8 +182,14 @@ def decide(pid, tier, seed, args, ev):
             obligations += r.get('checks_total', 0)
             discharged += r.get('checks_total', 0) - r.get('checks_failed', 0)
             handle_failure(ctx, pid, r, violations, inconclusive, known_hits)
+        elif r.get('stretch') and st in ('timeout', 'oom'):
+            # thorough-only deeper bound that did not fit under its cap: recorded as
+            # NOT decided, never as held; the mandatory (quick-tier) harnesses of the
+            # property still have to pass
+            not_completed.append('%s: %s after %ss (bound: %s)' % (r['harness'], st, r.get('wall_s'), r.get('bound')))
         else:
             inconclusive.append('%s: %s (%s)' % (r['harness'], st, r.get('detail', '')[:300]))
+    cov['not_completed'] = not_completed
     # ---- evidence
     nq = len(queries)
     cov['evaluations'] = obligations + nq
